@@ -3,7 +3,7 @@
 # every behaviour-preserving refactoring must leave all 20 checks silent.  8 scratch worktrees in parallel.
 cd "$(dirname "$0")/.." || exit 2
 J=${JOBS:-8}
-echo "== seeded defects (expect CAUGHT; C08-m1 is out of domain and expected silent)"
+echo "== seeded defects (expect CAUGHT)"
 ls -d seeded/*/ | xargs -P "$J" -n 16 python3-vt tools/eval_seeded.py 2>&1 | grep -v "CAUGHT" | cut -c1-300
 echo "== benign refactorings (expect SILENT)"
 ls -d benign/*/ | xargs -P "$J" -n 10 python3-vt tools/eval_benign.py 2>&1 | grep -v "SILENT" | cut -c1-300
